@@ -92,7 +92,7 @@ class SphericalSymGridBase(GridBase, metaclass=ABCMeta):
         self._shape: tuple[int] = (int(shape_list[0]),)
 
         try:
-            r_inner, r_outer = radius  # type: ignore
+            r_inner, r_outer = (float(r) for r in radius)  # type: ignore
         except TypeError:
             r_inner, r_outer = 0, float(radius)  # type: ignore
 
